@@ -5,7 +5,7 @@
 (* given to a constructor or pushed, the object holds the first N bytes of *)
 (* what std::string would hold.                                            *)
 (***************************************************************************)
-EXTENDS Integers, Sequences, FiniteSets, TLC
+EXTENDS Integers, Sequences, FiniteSets, FiniteSetsExt, TLC
 CONSTANTS Bytes, Caps, MaxSrc
 VARIABLES cap, ex, s
 vars == <<cap, ex, s>>
@@ -28,8 +28,8 @@ Next == \/ CtorDefault
         \/ Destroy
 Spec == Init /\ [][Next]_vars
 \* what the observers return
-RECURSIVE UpToNul(_)
-UpToNul(x) == IF x = <<>> \/ x[1] = 0 THEN <<>> ELSE <<x[1]>> \o UpToNul(Tail(x))
+\* (not a head/tail recursion: strings of 65536 characters are judged)
+UpToNul(x) == LET z == {i \in 1..Len(x) : x[i] = 0} IN IF z = {} THEN x ELSE SubSeq(x, 1, Min(z) - 1)
 CStr == UpToNul(s)          \* c_str() writes the terminator at index size (inside the N+1 bytes)
 Room == cap - Len(s)
 CapInv == Len(s) <= cap /\ Room >= 0
